@@ -16,11 +16,11 @@ BUDGET = {'quick': 25, 'thorough': 300}
 BLOCK = 10
 STREAM_ORDER = ['ops', 'guards', 'faults', 'chart', 'cfg']
 RULE = (common.GEN + 'every state (all kinds, history and final included) and transition carries 0-3 conditions of each kind, each a probe '
-        'P.cond(j, v, __old__, event); code modifies the context variable v. Twin runs: run A (all conditions true) is checked against the '
+        'P.cond(j, v, __old__, event) - a third of them also logs sent(na), sent(ea) and received(ea), which are compared with the events the returned micro steps sent so far (in half of the runs code sends and notifies) -; code modifies the context variable v. Twin runs: run A (all conditions true) is checked against the '
         'interleaving of code and contract probes implied by the returned micro steps and against the model value of v / __old__.v; then '
         'for EVERY contract-evaluation occurrence k of run A (thorough) or 12 drawn occurrences (quick) run B_k replays the same script '
         'with occurrence k returning false and must raise the right error class with .obj/.condition, with a probe log equal to the '
-        'prefix of A. non-trivial = one injected failure position; distinct = distinct (chart, condition, occurrence context)')
+        'prefix of A; a listener attached to every run B_k must not have been told that a state was exited before its failing postcondition. non-trivial = one injected failure position; distinct = distinct (chart, condition, occurrence context)')
 COMPONENTS = {'real': common.REAL, 'stub': common.STUB + ['contract condition bodies: probe calls whose verdict the simulator decides']}
 ASSUMPTIONS = common.ASSUME + ['the order in which the invariants of different active states are evaluated at the end of a step is not constrained']
 LEVEL_TEXT = ('per sampled (chart, history) the space of single failing contract occurrences is enumerated completely in the thorough tier '
@@ -57,12 +57,22 @@ def _live(old, vm):
     return None if old is None else (old[0], old[1], vm.w, old[3])
 
 
-def expected(sp, r, vm):
-    """(body, tail) of the log the returned step implies; vm is advanced"""
+def expected(sp, r, vm, flags=None):
+    """(body, tail) of the log the returned step implies; vm is advanced.  `flags` (a list) receives, per body entry, what
+    sent()/received() may answer there: (names sent in earlier micro steps of this step, those plus the names sent by the
+    current micro step, name of the event being processed) - the documentation fixes "sent during the current step", not
+    the instant within a micro step at which its own sends start to count"""
     body = []
+    sent_prev = set()
     if r.ms is not None:
         for m in r.ms.steps:
             evm = ev(m.event)
+            if flags is not None:
+                while len(flags) < len(body):
+                    flags.append(flags_cur)
+            cur = {e.name for e in m.sent_events}
+            flags_cur = (frozenset(sent_prev), frozenset(sent_prev | cur), m.event.name if m.event is not None else None)
+            sent_prev |= cur
             for sname in m.exited_states:
                 s = sp.states[sname]
                 body.append(('exit', sname))
@@ -95,6 +105,12 @@ def expected(sp, r, vm):
                 if s.bump_entry:
                     vm.v += 1
                     vm.w += 1
+        if flags is not None:
+            while len(flags) < len(body):
+                flags.append(flags_cur)
+            flags.append((frozenset(sent_prev), frozenset(sent_prev), r.ms.event.name if r.ms.event is not None else None))
+    elif flags is not None:
+        flags.append((frozenset(), frozenset(), None))
     tail = {}
     for sname in r.post:
         s = sp.states[sname]
@@ -105,7 +121,7 @@ def expected(sp, r, vm):
 
 def run(ch, tier):
     res = Result()
-    cfg = swarm(ch.s('cfg'), Cfg(contracts=True, bump=True), tier)
+    cfg = swarm(ch.s('cfg'), Cfg(contracts=True, bump=True, sentconds=True, sends=ch.s('cfg').flag(1, 2), notify=ch.s('cfg').flag(1, 2)), tier)
     sp = gen_spec(ch.s('chart'), cfg)
     own = owners(sp)
     cfp = fp(sp.fingerprint())
@@ -143,7 +159,8 @@ def run(ch, tier):
                 continue
             raise Abandon('other: unexpected %s in the fault-free twin' % r.exc_name())
         log = [e for e in r.log if e[0] in ('cond', 'entry', 'exit', 'act')]
-        body, tail = expected(sp, r, vm)
+        flags = []
+        body, tail = expected(sp, r, vm, flags)
         ctx = dict(chart=sp.describe(), step=r.k, micro_steps=r.ms and [repr(m) for m in r.ms.steps],
                    configuration=sp.canon(r.post), executed=[e[:5] for e in log][:40])
         got_body = [e[:5] for e in log[:len(body)]]
@@ -164,6 +181,23 @@ def run(ch, tier):
                 {k: [x[1:4] for x in v] for k, v in sorted(per.items())}, {k: [x[1:4] for x in v] for k, v in sorted(tail.items())}), **ctx)
         if r.ms is None and tail:
             res.stats['invariants_checked_on_empty_step'] += 1
+        # sent() / received() as seen by the conditions written in the extended form
+        for i, e in enumerate(log):
+            if e[0] != 'cond' or len(e) < 7:
+                continue
+            lower, upper, recv = flags[min(i, len(flags) - 1)]
+            s_na, s_ea, r_ea = e[6]
+            res.stats['sent_received_predicates_checked'] += 1
+            for nm, got in (('na', s_na), ('ea', s_ea)):
+                if nm in lower:
+                    res.stats['sent_predicate_true_by_an_earlier_micro_step'] += 1
+                if (nm in lower and not got) or (nm not in upper and got):
+                    return res.fail('sent-predicate', "condition #%d (%s) at position %d of the step saw sent(%r) = %r; events sent in this macro step "
+                                    'before the current micro step: %s, including it: %s' % (
+                                        e[1], own[e[1]][0] + ' ' + own[e[1]][1], i, nm, got, sorted(lower), sorted(upper)), **ctx)
+            if bool(r_ea) != (recv == 'ea'):
+                return res.fail('received-predicate', "condition #%d (%s) at position %d of the step saw received('ea') = %r while the event being "
+                                'processed is %r' % (e[1], own[e[1]][0] + ' ' + own[e[1]][1], i, r_ea, recv), **ctx)
         A.append((r.k, [e for e in r.log if e[0] == 'cond']))
     L = list(sim.P.log)
     n = sim.P.cond_n
@@ -183,6 +217,8 @@ def run(ch, tier):
         label, kind, is_t, key = own[entry[1]]
         simb = Sim(sp, ignore_contract=False)
         simb.P.fail_at = k
+        heard = []
+        simb.it.attach(lambda me, _s=simb: heard.append((me.name, me.data.get('state'), len(_s.P.log))))
         exc = None
         for r in replay_script(simb, script):
             if r.exc is not None and not (r.sel is not None and r.sel.err and type(r.exc).__name__ == r.sel.err):
@@ -211,6 +247,17 @@ def run(ch, tier):
             return res.fail('code-ran-after-failure' if len(Lb) > cut else 'prefix-differs',
                             'with occurrence %d failing the run executed %d probe events, the fault-free prefix has %d; first difference at %d: %r vs %r' % (
                                 k, len(Lb), cut, i, Lb[i] if i < len(Lb) else None, L[i] if i < cut else None), **ctx)
+        if kind == 'post' and not is_t:
+            # "postconditions just after its exit code": nobody is told that the state was exited in between
+            st_ = sp.states[key]
+            start = cut - 1 - (1 + len(st_.exit_sends) + st_.post.index(entry[1]))
+            if start >= 0 and L[start] == ('exit', key):
+                res.stats['listener_watched_a_failing_state_postcondition'] += 1
+                told = [h for h in heard if h[0] == 'state exited' and h[1] == key and h[2] > start]
+                if told:
+                    return res.fail('notified-before-postcondition', "listeners were told 'state exited' %s (after %d probe events) before its "
+                                    'postcondition #%d, evaluated right after the exit code at probe event %d, failed' % (
+                                        key, told[0][2], entry[1], start), **ctx)
         res.nontrivial.add(fp((cfp, entry[1], k)))
         if res.sample is None:
             res.sample = dict(ctx, raised=type(exc).__name__)
